@@ -458,6 +458,7 @@ func genC07(c *Ctx) {
 	}
 	corruptGzipFiles(c)
 	bufioDestinations(c)
+	bigRecordWriteFaults(c)
 	ws := recordWriters(c)
 	for _, w := range ws {
 		reps := c.n(10)
